@@ -7,8 +7,8 @@ import (
 	"fmt"
 	"math/rand"
 	"os"
-	"strconv"
 	"sort"
+	"strconv"
 	"strings"
 	"sync"
 	"testing"
@@ -55,25 +55,26 @@ type LookupRec struct {
 }
 
 type Exec struct {
-	t    *testing.T
-	p    *Plan
-	c    *Cluster
-	res  *hcommon.RunResult
-	mu   sync.Mutex
-	hist []*OpRec
-	look []LookupRec
-	joins []string
-	states map[uint64]struct{}
-	quiesced bool
-	rpcErrs []string
-	trigWG  *sync.WaitGroup
+	t          *testing.T
+	p          *Plan
+	c          *Cluster
+	res        *hcommon.RunResult
+	mu         sync.Mutex
+	hist       []*OpRec
+	look       []LookupRec
+	joins      []string
+	states     map[uint64]struct{}
+	quiesced   bool
+	rpcErrs    []string
+	trigWG     *sync.WaitGroup
 	quietPhase bool
-	adm     map[string][]*admission // per node address: admitted membership changes
-	acked   map[string]string // C07: acknowledged state right before the faulted change
-	tokens  map[string]uint64 // client/key -> last token held
-	stale   map[string][]uint64
+	adm        map[string][]*admission // per node address: admitted membership changes
+	acked      map[string]string       // C07: acknowledged state right before the faulted change
+	tokens     map[string]uint64       // client/key -> last token held
+	stale      map[string][]uint64
 	trigActive int
-	root    string // root-cause class shared by every consequence seen in this run
+	root       string // root-cause class shared by every consequence seen in this run
+	cutOff     string // transient root cause noted during the run (see noteCutOff)
 }
 
 func (ex *Exec) noteState() {
@@ -84,6 +85,8 @@ func (ex *Exec) noteState() {
 }
 
 // Run executes one plan inside a fresh bubble.
+var debugPointers = os.Getenv("VERIF_POINTERS") != ""
+
 func Run(t *testing.T, prop string, seed uint64, tier string, replay *hcommon.Replay) hcommon.RunResult {
 	var p *Plan
 	if replay != nil && len(replay.Plan) > 0 {
@@ -99,7 +102,7 @@ func Run(t *testing.T, prop string, seed uint64, tier string, replay *hcommon.Re
 	ex := &Exec{t: t, p: p, res: &res, states: map[uint64]struct{}{}}
 
 	schedSeed := simrt.Mix(seed, 0x7363686564) // "sched"
-	envSeed := simrt.Mix(seed, 0x656e76)        // "env"
+	envSeed := simrt.Mix(seed, 0x656e76)       // "env"
 	if replay != nil && replay.EnvSeed != nil {
 		envSeed = *replay.EnvSeed
 	}
@@ -526,6 +529,21 @@ func (ex *Exec) clientTask(ci int) {
 		entry := us[op.Entry%len(us)]
 		rec := ex.doOp(entry, ci, op, oi, false)
 		simrt.Event("c%d %s %s %s via %s -> %s %s%v %s", ci, rec.Kind, rec.Key, rec.Arg, entry.Name, rec.Class, rec.Out, rec.Outs, rec.Err)
+		ex.noteCutOff()
+		if debugPointers {
+			// debugging aid (VERIF_POINTERS=1): the pointers of every live node after each client operation
+			for _, h := range ex.c.All {
+				if h.Joined && !h.Crashed && h.Node.VerifState().String() != "Left" {
+					var ss []uint64
+					for _, x := range h.Node.VerifSuccessors() {
+						if x != nil {
+							ss = append(ss, x.ID())
+						}
+					}
+					simrt.Event("  ptr %s id=%d state=%s pred=%s succ=%v", h.Name, h.ID, h.Node.VerifState(), vid(h.Node.VerifPredecessor()), ss)
+				}
+			}
+		}
 		if rec.Class == "other" {
 			ex.res.Violate("C04", "kv-nonretryable/"+rec.Kind+"/"+errClassName(errors.New(rec.Err)),
 				"client %d %s(%s) via %s failed with an error that is neither retryable nor a documented conflict: %s", ci, rec.Kind, rec.Key, entry.Name, rec.Err)
